@@ -51,6 +51,7 @@ func units(n int64) *big.Int { return new(big.Int).Mul(big.NewInt(n), unit) }
 
 // atx is one abstract transaction (what the spec action names) plus what the real code did with it.
 type atx struct {
+	uid  int    // unique per abstract transaction: goes into the message field, so that equal-looking transactions are distinct signed transactions
 	K    string // xfer vote reg topup unreg create issue repl axfer freeze unfreeze box
 	F    string
 	T    string
@@ -73,6 +74,7 @@ type acct struct {
 
 type adapter struct {
 	w       *node.World
+	uidc    int
 	dir     string
 	seed    int64
 	accs    []*acct
@@ -282,6 +284,11 @@ func (a *adapter) realTx(t *atx, exp uint64) *types.Transaction {
 		engine.Failf("unknown tx kind %q", t.K)
 	}
 	gp := units(t.GP)
+	if t.uid == 0 {
+		a.uidc++
+		t.uid = a.uidc
+	}
+	msg := fmt.Sprintf("u%d", t.uid)
 	var tx *types.Transaction
 	if t.P != "" && t.P != t.F {
 		p := a.byName[t.P]
@@ -289,18 +296,18 @@ func (a *adapter) realTx(t *atx, exp uint64) *types.Transaction {
 			engine.Failf("no key for payer %q", t.P)
 		}
 		if to == nil {
-			tx = types.NewReimbursementContractCreation(f.addr, p.addr, amount, data, typ, node.ChainID, exp, "", "")
+			tx = types.NewReimbursementContractCreation(f.addr, p.addr, amount, data, typ, node.ChainID, exp, "", msg)
 		} else {
-			tx = types.NewReimbursementTransaction(f.addr, *to, p.addr, amount, data, typ, node.ChainID, exp, "", "")
+			tx = types.NewReimbursementTransaction(f.addr, *to, p.addr, amount, data, typ, node.ChainID, exp, "", msg)
 		}
 		tx = a.must(types.MakeReimbursementTxSigner().SignTx(tx, f.key))
 		tx = types.GasPayerSignatureTx(tx, gp, t.GL)
 		tx = a.must(types.MakeGasPayerSigner().SignTx(tx, p.key))
 	} else {
 		if to == nil {
-			tx = types.NoReceiverTransaction(f.addr, amount, t.GL, gp, data, typ, node.ChainID, exp, "", "")
+			tx = types.NoReceiverTransaction(f.addr, amount, t.GL, gp, data, typ, node.ChainID, exp, "", msg)
 		} else {
-			tx = types.NewTransaction(f.addr, *to, amount, t.GL, gp, data, typ, node.ChainID, exp, "", "")
+			tx = types.NewTransaction(f.addr, *to, amount, t.GL, gp, data, typ, node.ChainID, exp, "", msg)
 		}
 		tx = a.must(types.MakeSigner().SignTx(tx, f.key))
 	}
